@@ -124,6 +124,11 @@ class Analysis:
             if im in m and k in ("Call", "Mem", "Sub", "Ref", "Cond", "Un"):
                 return frozenset([I])
         if k == "Str":
+            # a driver literal is trusted as a path component unless it climbs: "../" spliced into a path undoes what
+            # legal_path() established for the approved part
+            txt = e.get("s", "") or ""
+            if ".." in txt.replace("...", ""):
+                return frozenset([("U", "literal %r contains '..'" % txt[:16])])
             return frozenset([I])
         if k == "Int":
             return frozenset([I]) if e.get("v") == 0 else frozenset([("U", "integer as pointer")])
